@@ -166,6 +166,10 @@ def main(argv=None):
                 # a type/syntax/unsupported error anywhere makes the whole unit undecided
                 infra.append("%s: %s [%s]" % (ur["unit"], a["message"], a["detail"].get("src") or a["detail"].get("gen_line")))
                 continue
+            if a["cls"] == "refuted" and not a.get("props") and not a.get("fn"):
+                # the verifier rejected something this engine cannot place in any function: never dropped - the unit is undecided
+                infra.append("%s: verifier failure that could not be attributed to a function (%s): undecided" % (ur["unit"], a["message"]))
+                continue
             if prop not in a["props"]:
                 other_failures.append(dict(obligation=oid, message=a["message"], props=a["props"]))
                 fdeps = ur["g"].fns.get(a.get("fn") or "", {}).get("deps", [])
